@@ -86,6 +86,9 @@ func decodeAll(v ttlv.Value) (probs []string) {
 		u    func([]byte, any) error
 	}
 	for _, e := range []enc{{"xml", ttlv.MarshalXML, ttlv.UnmarshalXML}, {"json", ttlv.MarshalJSON, ttlv.UnmarshalJSON}, {"ttlv", ttlv.MarshalTTLV, ttlv.UnmarshalTTLV}} {
+		if e.name == "ttlv" && (v.Tag < 0 || v.Tag > 0xFFFFFF) {
+			continue // the binary format has three tag bytes: a wider number only exists in the text forms
+		}
 		func() {
 			defer func() {
 				if r := recover(); r != nil {
